@@ -1,5 +1,5 @@
 (* Props/C10.v -- property C10: receive windows follow the regional parameters in force when the uplink was sent. *)
-From Coq Require Import NArith ZArith List Bool.
+From Coq Require Import NArith ZArith List Bool Lia.
 From LoraV Require Import Base.Bytes Gen.RegionTables Model.Region Model.Mac Spec.RP002 Proofs.WindowProofs Model.AsyncDev Proofs.AsyncWindows Model.NbDev Proofs.NbWindows Crypto.CMAC Proofs.FrontEndExamples.
 Import ListNotations.
 Local Open Scope N_scope.
@@ -16,6 +16,13 @@ Theorem C10_window_dr_total : forall r dr off, r < 9 -> dr < 16 -> off < 8 ->
   exists d1, get_rx_datarate r dr off false = Val d1 /\ d1 < 16 /\
              get_rx_datarate r dr off true = Val (rp_rx2_dr r) /\ get_datarate r (rp_rx2_dr r) <> None.
 Proof. exact window_dr_total. Qed.
+
+(* the RX2 default frequency of every region's regenerated table is the RP002 value (AS923-n: 923.2 MHz + the group offset) *)
+Theorem C10_rx2_default_frequency : forall r, r < 9 -> r_rx2_freq r = rp_rx2_freq r.
+Proof.
+  intros r H. assert (E : forallb (fun r => r_rx2_freq r =? rp_rx2_freq r) (map N.of_nat (seq 0 9)) = true) by (vm_compute; reflexivity).
+  rewrite forallb_forall in E. apply N.eqb_eq, E. apply in_map_iff. exists (N.to_nat r). split; [apply N2Nat.id|apply in_seq; lia].
+Qed.
 
 Section C10.
   Theorem C10_no_panic_in_window_config : forall m freq dr tx_dr,
